@@ -47,6 +47,10 @@ def expected_obj(exp, by_dt="<i8"):
 def fill_obj(fv):
     if fv is None:
         return None
+    if fv == "NA":
+        from flox import xrdtypes
+
+        return xrdtypes.NA  # the dtype-appropriate missing-value sentinel (what xarray passes)
     return unnum(fv)
 
 
